@@ -31,7 +31,7 @@ CHECKS = {
  "C07": ("model_checking", "TLC enumerates every string function x argument combination of the grid on the TLA+ string operators (code-point sequences), checks the laws relating them on the specification, and every case is replayed against the real VM (value, type, error code, printed text); MID$ assignment over the same grid as trace-validated sessions.", "DESIGN.md I.2 and section 5 C07", "TLA+ spec + TLC enumeration, spec-to-implementation replay + TLC trace validation"),
  "C14": ("model_checking", SESS, "DESIGN.md I.2 and section 5 C14", "TLA+ spec (BasicRenum) + TLC RenumExact/RenumSound over referencing forms x argument triples, TLC trace validation incl. listed text"),
  "C15": ("model_checking", SESS, "DESIGN.md I.2 and section 5 C15", "TLA+ spec + TLC state graph of the program store (ListExact/DeleteExact/LineExact), TLC trace validation incl. listed text"),
- "C18": ("model_checking", SESS, "DESIGN.md I.2 and section 5 C18", "TLA+ spec + TLC StmtNeutral/PoolBounded; leak and pool-limit sessions validated by TLC trace validation (stack probe)"),
+ "C18": ("model_checking", SESS, "DESIGN.md I.2 and section 5 C18", "TLA+ spec + TLC StmtNeutral/PoolBounded; leak and pool-limit sessions validated by TLC trace validation (stack probe); PoolLimit (TLC, small limit) + PoolTrace: the variable pool stepped across the real limit, trace-validated"),
  "C19": ("model_checking", SESS, "DESIGN.md I.2 and section 5 C19", "TLA+ spec (BasicProg.Analyze with character ranges from BasicShow segments) + TLC DiagInside/NoRun, TLC trace validation of codes, lines, ranges, underlines"),
  "C20": ("model_checking", SESS, "DESIGN.md I.2 and section 5 C20", "TLA+ spec + TLC LayoutInvariant over layout transformations, TLC trace validation of both layouts"),
 }
